@@ -303,12 +303,22 @@ func main() {
 	r := ev.New("C18", "model_checking",
 		"history: every sequence over {add,back,forward} up to the depth bound, replayed on a fresh history.History[int]; "+
 			"feed: breadth-first search over reference-model states (lo,hi,cursor), every transition replayed from scratch on a fresh feed.Feed, "+
-			"observers Contains/IsParent/IsChild/Get at offsets -4..4 and Current compared after the step. "+
+			"observers Contains/IsParent/IsChild/Get at offsets -4..4 and Current compared after the step; "+
+			"two objects alive at once: every interleaving of operation sequences up to depth 3/4 on two feeds (all pairs of creations) and 5/7 on two histories, each object compared with its own model after every step. "+
 			"A case is non-trivial if it moves the cursor or changes the bounds; distinct = distinct model states.")
 	if *ev.FlagReplay != "" {
 		var rp replay
 		ev.LoadReplay(*ev.FlagReplay, &rp)
 		var msg string
+		if strings.HasSuffix(rp.Object, "-pair") {
+			// the two-object phase is small: run it whole
+			if pairsPart(r) {
+				fmt.Printf("VIOLATION property=C18 replay=%s\n", *ev.FlagReplay)
+				os.Exit(1)
+			}
+			fmt.Println("replay: two-object phase found nothing")
+			return
+		}
 		if rp.Object == "history" {
 			var ops []int
 			for _, f := range strings.Fields(rp.Ops) {
@@ -328,6 +338,12 @@ func main() {
 			os.Exit(1)
 		}
 		return
+	}
+
+	// ---- two objects alive at once (sequential, first)
+	if pairsPart(r) {
+		r.Note("objects share state: the single-object searches (which run many objects in parallel) were skipped")
+		r.Finish()
 	}
 
 	// ---- history: all sequences
